@@ -331,7 +331,14 @@ func resp3To2(val3 respValue) (value respValue) {
 	switch v := val3.data.(type) {
 	case respSimpleString, respErrorString, respInt, respBulkString:
 		value.data = v
-	case respDouble, respBool, respBigNumber:
+	case respBool:
+		// RESP2 has no boolean: Redis sends the integers 1 and 0
+		if v {
+			value.data = respInt(1)
+		} else {
+			value.data = respInt(0)
+		}
+	case respDouble, respBigNumber:
 		value.data = respSimpleString(fmt.Sprintf("%s", v))
 	case respVerbatimString:
 		// the text can contain line breaks, which a simple string can't carry
@@ -408,8 +415,14 @@ func nativeTableToResp3(val map[string]any) (m respMap) {
 func resp3MapToResp2(val respMap) (a respArray) {
 	a = make([]respValue, 0, 2*len(val.m))
 	for _, rk := range val.order {
-		name := fmt.Sprintf("%s", rk.data)
-		a = append(a, nativeValueToResp(name))
+		switch rk.data.(type) {
+		case respBulkString, respSimpleString:
+			name := fmt.Sprintf("%s", rk.data)
+			a = append(a, nativeValueToResp(name))
+		default:
+			// a key that is not a string (a number, a boolean) is converted like any other element
+			a = append(a, resp3To2(rk))
+		}
 
 		rv := val.mustGet(rk)
 		a = append(a, nativeValueToResp(resp3To2(rv)))
